@@ -1,0 +1,28 @@
+//go:build verif
+
+package schema
+
+// Contracts read by /verif/bin/govc (contract-based deductive verification; see /verif/DESIGN.md).
+// This file contains comments only. It is compiled only under the build tag "verif" and adds no code.
+// Every line starting with "//@" is part of a contract; contracts are keyed by function, parameters are
+// bound positionally (receiver first), results are named after "->".
+
+// ---------------------------------------------------------------------------------------------
+// Type identity
+// ---------------------------------------------------------------------------------------------
+
+//@ abstract tid(t Type) TypeID
+//@ interface Type.TypeID(this) -> res
+//@   ensures res == tid(this)
+//@   assigns nothing
+
+// ---------------------------------------------------------------------------------------------
+// C15: compatibility of scalar kinds
+// ---------------------------------------------------------------------------------------------
+
+//@ spec disjointI(aMin *int64, aMax *int64, bMin *int64, bMax *int64) bool = (aMax != nil && bMin != nil && *bMin > *aMax) || (aMin != nil && bMax != nil && *bMax < *aMin)
+
+//@ func IntSchema.ValidateCompatibility(i, typeOrData) -> err
+//@   ensures implements(typeOrData, Type) && tid(typeOrData) != TypeIDInt && tid(typeOrData) != TypeIDIntEnum ==> err != nil
+//@   ensures implements(typeOrData, Type) && tid(typeOrData) == TypeIDIntEnum ==> err == nil
+//@   ensures typeOf(typeOrData) == type(*IntSchema) ==> ((err == nil) <==> !disjointI(i.MinValue, i.MaxValue, typeOrData.(*IntSchema).MinValue, typeOrData.(*IntSchema).MaxValue))
